@@ -18,6 +18,10 @@ CHECKS = {
    technique="TLA+ reference definition Timestamp (RFC 3339 grammar + instant in integer arithmetic) evaluated by TLC on every (input, output) event recorded from the real parseTime transform over an enumerated input space",
    text="The real parseTime transform (rebuilt from /repo) is run over the enumerated space - empty, NIL, every truncation/substitution/insertion/deletion of valid timestamps, short garbage, boundary dates x times x zones x fractions, repeated malformed zones on one instance, fractions of 1-6 digits (thorough: all 1,111,110) and sampled 7-9 digits - with panics recovered and logged; TLC validates every event against Timestamp!Check: not shaped => error, counted, fallback kept; valid => exact <<days, second of day, nanosecond>>; never a panic. The oracle is the TLA+ text, not a second Go implementation.",
    note="Trusts TLC's integer arithmetic and the driver's projection of time.Time to (days, second of day, nanosecond). Not covered: all 10^9 fractions (7-9 digits are sampled), strings outside the enumerated families."),
+ "C14": dict(cat="model_checking", ref="5.14", engine="functions",
+   technique="TLA+ reference relation Redact (Preserving + Complete) evaluated by TLC on every (text, redacted text) event recorded from the real redactEmail transform over the complete space of short texts plus generated texts",
+   text="The real redactEmail transform is run on every text of length <=5 (thorough <=7, 5.4 million) over 9 symbols including '@', '/', separators and a 2-byte character, and on seeded generated texts with 0-4 addresses at all adjacencies; TLC validates every event against the relation the statement demands: the output is the input with disjoint spans of address characters around one '@' replaced by REDACTED (everything else byte for byte), no unambiguous address of the supported shape remains once the tokens are masked, and the label counter moved iff the text changed. The relation is one-sided where the statement leaves a choice, so it cannot alarm on over-redaction of borderline candidates.",
+   note="Inputs are lower case (tokens identifiable); Complete only demands redaction of addresses whose every label is well-formed; the symbol alphabet bounds the byte contents."),
 }
 NOT_YET = {
 }
